@@ -143,6 +143,10 @@ def lpc_source(g, P, base, savebin=False):
                     calls.append('"/c07/caller"->do_eval((: %s :));' % c[1:])
                 elif c[0] == "H":       # a functional whose body makes the local call
                     calls.append("evaluate((: %s(%s) :));" % (c[1:], largs(c[1:])))
+                elif c[0] == "O":       # `(: f() :)` is made and STORED in the other object
+                    calls.append('"/c07/caller"->stash((: %s(%s) :));' % (c[1:], largs(c[1:])))
+                elif c == "N":          # the functional this object stored (if any) is fetched back and evaluated HERE
+                    calls.append('evaluate("/c07/caller"->get_stash());')
                 elif c[0] == "I":       # ... evaluated by the other object
                     calls.append('"/c07/caller"->do_eval((: %s(%s) :));' % (c[1:], largs(c[1:])))
                 else:
@@ -152,6 +156,8 @@ def lpc_source(g, P, base, savebin=False):
                         calls.append("evaluate((: %s :));" % sup)
                     elif c[0] == "K":   # ... evaluated by another object: only the pointer knows the creator's offsets
                         calls.append('"/c07/caller"->do_eval((: %s :));' % sup)
+                    elif c[0] == "M":   # ... stored; some other function of this object evaluates it later (N)
+                        calls.append('"/c07/caller"->stash((: %s :));' % sup)
                     else:
                         calls.append("%s;" % sup)
             code = (fnum(P.name) + 1) * 100 + fnum(it[2])
@@ -779,7 +785,7 @@ class C07(Prop):
                     target = fn if rng.chance(4, 5) else rng.choice(fpool)
                     if fnum(target) > fnum(fn):
                         continue
-                    kind = rng.weighted([("S", 6), ("J", 2), ("K", 3)])
+                    kind = rng.weighted([("S", 6), ("J", 2), ("K", 3), ("M", 3)])
                     if rng.chance(1, 2):
                         if any(resolve(g, q, target) is not None for _, q in inh):
                             calls.append("%s*.%s" % (kind, target))
@@ -792,7 +798,11 @@ class C07(Prop):
                     lower = [f for f in fpool if fnum(f) < fnum(fn) and f in vis and "hidden" not in vis[f][0]
                              and (vis[f][1] or rng.chance(1, 6))]
                     if lower:
-                        calls.append(rng.weighted([("L", 12), ("F", 3), ("G", 2), ("H", 1), ("I", 2)]) + rng.choice(lower))
+                        calls.append(rng.weighted([("L", 12), ("F", 3), ("G", 2), ("H", 1), ("I", 2), ("O", 1)]) + rng.choice(lower))
+                # evaluate whatever functional this object has stored (made by this or another inherit level, in this or
+                # an earlier call): the evaluating frame's offsets have nothing to do with the creator's
+                if rng.chance(1, 4):
+                    calls.insert(rng.range(0, len(calls)), "N")
                 P.items.append(("d", rng.weighted([("-", 6), ("static", 3), ("private", 2), ("protected", 1), ("public", 1)]), fn, calls))
                 vis = visible_names(g, P.name)
             if rng.chance(1, 8):
@@ -899,7 +909,7 @@ class C07(Prop):
                         if it[0] != "d":
                             continue
                         for x in it[3]:
-                            if x[0] not in "SJK":
+                            if x[0] not in "SJKM":
                                 continue
                             par, fn = x[1:].split(".")
                             for _, q in P.inherits():
@@ -944,7 +954,9 @@ class C07(Prop):
                                 kname = {"S": "super_calls", "L": "local_calls", "F": "fp_calls", "G": "fp_calls_evaluated_by_other_object",
                                          "H": "functional_calls", "I": "functional_calls_evaluated_by_other_object",
                                          "J": "super_calls_in_functionals",
-                                         "K": "super_calls_in_functionals_evaluated_by_other_object"}[x[0]]
+                                         "K": "super_calls_in_functionals_evaluated_by_other_object",
+                                         "M": "super_calls_in_stored_functionals", "O": "local_calls_in_stored_functionals",
+                                         "N": "stored_functional_evaluations"}[x[0]]
                                 h[kname] = h.get(kname, 0) + 1
                     if ni > 1:
                         h["multi_inherit_programs"] += 1
